@@ -174,6 +174,8 @@ def child(job):
     mon.use_tool_id(mon.PROFILER_ID, 'c15')
     mon.register_callback(mon.PROFILER_ID, mon.events.PY_START, count)
 
+    mon.set_events(mon.PROFILER_ID, mon.events.PY_START)
+
     def on_timer(sig, frame):
         raise _Hang()
     signal.signal(signal.SIGPROF, on_timer)
@@ -182,13 +184,11 @@ def child(job):
         """(status, result, work): status in ok | hang | RecursionError | exc:<type>"""
         calls[0] = 0
         try:
-            mon.set_events(mon.PROFILER_ID, mon.events.PY_START)
             signal.setitimer(signal.ITIMER_PROF, job['limit'])
             try:
                 res = fn()
             finally:
                 signal.setitimer(signal.ITIMER_PROF, 0)
-                mon.set_events(mon.PROFILER_ID, 0)
             return 'ok', res, calls[0]
         except _Hang:
             return 'hang', 'no result after %s s CPU, %d Python calls' % (job['limit'], calls[0]), calls[0]
@@ -377,6 +377,8 @@ def run(repo, seed, tier):
                 if None not in run4 and run4[0] > FLOOR and all(run4[j + 1] >= 1.8 * run4[j] for j in range(4)):
                     violation('work grows exponentially: it (nearly) doubles per +1 in n over four consecutive sizes',
                               'scaling family %s, query %s, n=%d..%d' % (fam, kind, n, n + 4), 'work %s' % run4)
+    if os.environ.get('C15_DUMP'):
+        json.dump(violations, open(os.environ['C15_DUMP'], 'w'))
     return {'name': 'C15.cycles-and-scaling', 'contract': 'C15.returns-bounded',
             'evaluations': evaluations, 'distinct_nontrivial': nontrivial,
             'rule': '%d hand-written self-referential programs (cyclic assignment, recursion, self/cyclic/factory inheritance, '
